@@ -228,7 +228,7 @@ fn class_of(r: &GDResult<Value>) -> String {
 #[derive(Clone)]
 enum What {
     /// entry index, silence point, ipv6, timeout ms, retries
-    Silence { entry: usize, k: usize, v6: bool, ms: u64, retries: usize },
+    Silence { entry: usize, k: usize, v6: bool, ms: u64, retries: usize, variant: u8 },
     /// special endpoints: 0 = TCP refused, 1 = UDP port closed
     Special { entry: usize, kind: u8, v6: bool, ms: u64, retries: usize },
     Master { v6: bool, ms: u64 },
@@ -253,8 +253,26 @@ fn build(tier: Tier) -> Vec<Case> {
                     for k in 0 ..= e.replies {
                         v.push(Case {
                             label: format!("{} {} silent after {k} replies, timeout {ms} ms, retries {r}", e.name, if v6 { "::1" } else { "127.0.0.1" }),
-                            what: What::Silence { entry: ei, k, v6, ms: *ms, retries: *r },
+                            what: What::Silence { entry: ei, k, v6, ms: *ms, retries: *r, variant: 0 },
                         });
+                    }
+                    // distinct timeouts: only the read timeout may bound a blocked receive
+                    let variants: &[u8] = if tier.is_thorough() { &[1, 2] } else { &[1] };
+                    for variant in variants {
+                        for k in [0, e.replies / 2] {
+                            if *r > 0 && !tier.is_thorough() {
+                                continue;
+                            }
+                            v.push(Case {
+                                label: format!(
+                                    "{} {} silent after {k} replies, read timeout {ms} ms, write/connect {}, retries {r}",
+                                    e.name,
+                                    if v6 { "::1" } else { "127.0.0.1" },
+                                    if *variant == 1 { "30 s" } else { "None" }
+                                ),
+                                what: What::Silence { entry: ei, k, v6, ms: *ms, retries: *r, variant: *variant },
+                            });
+                        }
                     }
                     v.push(Case {
                         label: format!("{} {} {}, timeout {ms} ms, retries {r}", e.name, if v6 { "::1" } else { "127.0.0.1" }, if e.tcp { "connection refused" } else { "port closed" }),
@@ -288,6 +306,16 @@ fn cases(tier: Tier) -> &'static Vec<Case> {
 
 fn ts(ms: u64, retries: usize) -> Option<TimeoutSettings> {
     TimeoutSettings::new(Some(Duration::from_millis(ms)), Some(Duration::from_millis(ms)), Some(Duration::from_millis(ms)), retries).ok()
+}
+
+/// Read timeout `ms`; write and connect timeouts far larger (variant 1) or absent (variant 2): a blocking
+/// receive must be bounded by the READ timeout alone.
+fn ts_variant(ms: u64, retries: usize, variant: u8) -> Option<TimeoutSettings> {
+    match variant {
+        0 => ts(ms, retries),
+        1 => TimeoutSettings::new(Some(Duration::from_millis(ms)), Some(Duration::from_secs(30)), Some(Duration::from_secs(30)), retries).ok(),
+        _ => TimeoutSettings::new(Some(Duration::from_millis(ms)), None, None, retries).ok(),
+    }
 }
 
 fn loop_ip(v6: bool) -> IpAddr { if v6 { IpAddr::V6(Ipv6Addr::LOCALHOST) } else { IpAddr::V4(Ipv4Addr::LOCALHOST) } }
@@ -327,12 +355,12 @@ impl Prop for C12 {
         ctx.counters.evaluations += 1;
         ctx.counters.states += 1;
         match case.what.clone() {
-            What::Silence { entry, k, v6, ms, retries } => {
+            What::Silence { entry, k, v6, ms, retries, variant } => {
                 let e = entries()[entry].clone();
                 let ip = loop_ip(v6);
                 // deterministic twin
                 let call = e.call.clone();
-                let twin = run_query((server_for(e.family))(), Box::new(SilentAfter { k, delivered: 0 }), Chooser::new(&[]), || call(IP4, PORT, ts(ms, retries)));
+                let twin = run_query((server_for(e.family))(), Box::new(SilentAfter { k, delivered: 0 }), Chooser::new(&[]), || call(IP4, PORT, ts_variant(ms, retries, variant)));
                 let n_timeouts = twin.log.iter().filter(|x| matches!(x, WireEvent::Recv { data: None, .. })).count();
                 let twin_class = match &twin.outcome {
                     Outcome::Ok(_) => "ok".to_string(),
@@ -350,7 +378,7 @@ impl Prop for C12 {
                     };
                     let call = e.call.clone();
                     let port = server.port;
-                    let t = ts(ms, retries);
+                    let t = ts_variant(ms, retries, variant);
                     let r = with_watchdog(bound * 4 + Duration::from_secs(5), move || call(ip, port, t));
                     ctx.counters.transitions += 1;
                     let verdict: Option<(String, String)> = match r {
